@@ -230,6 +230,25 @@ theorem checkTx_fine (s : State) (tx : Tx) (hg : GrantsOK s) :
             (fun a b he => ⟨fun hga => .single (.ante tx husers hga he), anteEffect_grants a b tx he⟩) _ _ s s1 h1
         exact ⟨hante.1 hg, grantsOK_of_eq hg hante.2⟩
 
+theorem recheckTx_fine (s : State) (tx : Tx) (hg : GrantsOK s) :
+    FinePath s (recheckTx Facts.anteOrder s tx).1 ∧ GrantsOK (recheckTx Facts.anteOrder s tx).1 := by
+  unfold recheckTx
+  split
+  · exact ⟨.refl _, hg⟩
+  · split
+    · exact ⟨.refl _, hg⟩
+    · split
+      · exact ⟨.refl _, hg⟩
+      · rename_i s1 h1
+        have husers := ante_signers_user .recheck s s1 tx h1
+        have hante : (GrantsOK s → FinePath s s1) ∧ (s1.grants = s.grants ∧ s1.allowances = s.allowances) :=
+          ante_rel (fun a b => (GrantsOK a → FinePath a b) ∧ (b.grants = a.grants ∧ b.allowances = a.allowances))
+            (fun a => ⟨fun _ => .refl a, rfl, rfl⟩)
+            (fun a b c h1 h2 => ⟨fun hga => (h1.1 hga).trans (h2.1 (grantsOK_of_eq hga h1.2)),
+              h2.2.1.trans h1.2.1, h2.2.2.trans h1.2.2⟩) tx
+            (fun a b he => ⟨fun hga => .single (.ante tx husers hga he), anteEffect_grants a b tx he⟩) _ _ s s1 h1
+        exact ⟨hante.1 hg, grantsOK_of_eq hg hante.2⟩
+
 theorem govExec_fine (wall : Nat) (s : State) (m : Msg) (hg : GrantsOK s) :
     FinePath s (govExec wall s m).1 ∧ GrantsOK (govExec wall s m).1 := by
   unfold govExec
@@ -315,6 +334,7 @@ theorem chainStep_fine (s s' : State) (h : ChainStep s s') (hg : GrantsOK s) : F
       grantsOK_of_eq (s := { s with time := t }) hg (beginBlock_grants _ _ _ h)⟩
   | deliver wall tx hs => subst hs; exact deliverTx_fine wall s tx hg
   | check tx hs => subst hs; exact checkTx_fine s tx hg
+  | recheck tx hs => subst hs; exact recheckTx_fine s tx hg
   | gov wall m hs => subst hs; exact govExec_fine wall s m hg
   | govAll wall msgs hs => subst hs; exact govExecAll_fine wall s msgs hg
 
